@@ -2,6 +2,8 @@ package sim
 
 import (
 	"fmt"
+	"os"
+	"path/filepath"
 	"sort"
 	"strings"
 	"time"
@@ -98,7 +100,7 @@ func (c20Checker) Meta() CheckerMeta {
 // the run's one spelling of the name.
 func (sp *c20Spec) spelling(set, name, variant int) string {
 	switch sp.Loaders[set] {
-	case "fs", "virt", "virtrel":
+	case "fs", "virt", "virtrel", "localmirror":
 		return []string{"", "./", "zz/../", "./zz/../"}[variant%4] + sp.Names[name]
 	}
 	return sp.Spell[name]
@@ -188,7 +190,12 @@ func c20Gen(tp *Tapes) *c20Spec {
 	}
 	nSets := 1 + g.Draw(2)
 	for i := 0; i < nSets; i++ {
-		sp.Loaders = append(sp.Loaders, []string{"fs", "virt", "http", "virtrel"}[g.Draw(4)])
+		sp.Loaders = append(sp.Loaders, []string{"fs", "virt", "http", "virtrel", "localmirror"}[g.Draw(5)])
+		if sp.NLoad == 2 && sp.Loaders[i] == "localmirror" {
+			// (a stack of two local loaders with different base directories cannot work in pongo2:
+			// the name is made absolute by the first one and handed to both)
+			sp.Loaders[i] = "virt"
+		}
 	}
 	sp.strat = pickStrategy(g)
 	sp.Strat = sp.strat.String()
@@ -540,10 +547,27 @@ func (c20Checker) Run(tp *Tapes, opt RunOpt) *Outcome {
 	rw := newRaceWatch()
 
 	sets := make([]*pongo2.TemplateSet, nSets)
+	// (sets over the real LocalFilesystemLoader read from a throw-away directory that mirrors
+	// the simulated disks, see mirrorLoader)
+	mirrorRoot := ""
+	for _, k := range sp.Loaders {
+		if k == "localmirror" && mirrorRoot == "" {
+			c11TreeSeq++
+			mirrorRoot = filepath.Join(os.TempDir(), fmt.Sprintf("c20tree-%07d-%07d", os.Getpid()%10000000, c11TreeSeq%10000000))
+			os.RemoveAll(mirrorRoot)
+			defer os.RemoveAll(mirrorRoot)
+			out.probe("real_local_loader_over_mirror")
+		}
+	}
 	mkStack := func(id int, kind string) []pongo2.TemplateLoader {
 		var ls []pongo2.TemplateLoader
 		for d := 0; d < sp.NLoad; d++ {
-			ls = append(ls, w.MakeLoader(id*4+d, LoaderSpec{Kind: kind, Disk: d}))
+			spec := LoaderSpec{Kind: kind, Disk: d}
+			if kind == "localmirror" {
+				spec.BaseDir = filepath.Join(mirrorRoot, fmt.Sprintf("d%d", d))
+				os.MkdirAll(spec.BaseDir, 0o755)
+			}
+			ls = append(ls, w.MakeLoader(id*4+d, spec))
 		}
 		return ls
 	}
@@ -827,7 +851,11 @@ func (c20Checker) Run(tp *Tapes, opt RunOpt) *Outcome {
 		}
 		sort.SliceStable(hist, func(i, j int) bool { return hist[i].Call < hist[j].Call })
 		for _, h := range hist {
-			out.dig(h.What, h.Out)
+			if mirrorRoot != "" {
+				out.dig(h.What, strings.ReplaceAll(h.Out, mirrorRoot, "$ROOT"))
+			} else {
+				out.dig(h.What, h.Out)
+			}
 		}
 
 		if sp.NLoad == 2 {
@@ -948,7 +976,11 @@ func (c20Checker) Run(tp *Tapes, opt RunOpt) *Outcome {
 				t.Execute(pongo2.Context{"bad-key": "v", "g0": "LEAK", "g1": "LEAK"})
 				t.Execute(pongo2.Context{"cm": "v", "g0": "LEAK", "g1": "LEAK"})
 				got, err := t.Execute(nil)
-				out.dig(got, errStr(err))
+				if mirrorRoot != "" {
+					out.dig(got, strings.ReplaceAll(errStr(err), mirrorRoot, "$ROOT"))
+				} else {
+					out.dig(got, errStr(err))
+				}
 				if err != nil || got != exp {
 					cls := "wrong_content"
 					if err == nil && strings.Contains(got, ":S") && !strings.Contains(got, fmt.Sprintf(":S%dG%d]", cr.set, cr.set)) {
